@@ -68,7 +68,13 @@ func stapleOCSP(ctx context.Context, ocspConfig OCSPConfig, storage Storage, cer
 	ocspStapleKey := StorageKeys.OCSPStaple(cert, pemBundle)
 	cachedOCSP, err := storage.Load(ctx, ocspStapleKey)
 	if err == nil {
-		resp, err := ocsp.ParseResponse(cachedOCSP, nil)
+		// if the chain has the issuer certificate, verify the stored response
+		// against it just like a response coming from the responder
+		var issuerCert *x509.Certificate
+		if len(cert.Certificate.Certificate) > 1 {
+			issuerCert, _ = x509.ParseCertificate(cert.Certificate.Certificate[1])
+		}
+		resp, err := ocsp.ParseResponse(cachedOCSP, issuerCert)
 		if err == nil {
 			if freshOCSP(resp) && checkOCSPResponse(resp, cert.Leaf) == nil {
 				// staple is still fresh (and is a current response
